@@ -95,9 +95,11 @@ def child_history(steps):
     """runs in a fresh child: steps = [(class spec, seq)] -> events"""
     evs = []
     all_specs = {}
-    for cspec, seq in steps:
+    for step in steps:
+        cspec, seq = step[0], step[1]
+        circ = step[2] if len(step) > 2 else True
         cls = classes.build(cspec)
-        res = query(cls, record(seq))
+        res = query(cls, record(seq, circular=circ))
         d = classes.describe(cls)
         rx = cls.__dict__.get("_regex")
         cached = dna.tokens(rx.pattern) if rx is not None else []
@@ -105,7 +107,7 @@ def child_history(steps):
         slots = sorted(n for n, k in all_specs.items() if k.__dict__.get("_regex") is not None)
         # every class of the kit modules holding a slot (not only those asked) would be better: collect them
         evs.append({"ev": "Validate", "cls": {"name": d["name"], "role": d["role"], "toks": d["toks"], "enz": d["enz"]},
-                    "cached": cached, "slots": slots_all(), "seq": dna.enc(seq), "res": res})
+                    "cached": cached, "slots": slots_all(), "seq": dna.enc(seq), "circ": circ, "res": res})
     return evs
 
 
@@ -124,15 +126,15 @@ def slots_all():
     return sorted(out)
 
 
-def one_query(cspec, seq):
-    return query(classes.build(cspec), record(seq))
+def one_query(cspec, seq, circ=True):
+    return query(classes.build(cspec), record(seq, circular=circ))
 
 
 _server = [None]
 
 
-def fresh_answer(cspec, seq):
-    return _server[0].call("harness.props.c06", "one_query", cspec, seq)
+def fresh_answer(cspec, seq, circ=True):
+    return _server[0].call("harness.props.c06", "one_query", cspec, seq, circ)
 
 
 def run_history(h):
@@ -176,19 +178,29 @@ def run(tier, seed):
             rec = members[rng.choice([sp["name"], rng.choice(kcs)[0]["name"]])]
             h.append((sp, gen.rotate(rec, rng.randrange(len(rec)))))
         histories.append(h)
+    # the same letters typed as a linear and as a circular record by the same class, in both orders, with the
+    # structure running through the origin (so that the two topologies legitimately differ)
+    for sp, c in rng.sample(kcs, 12 if q else len(kcs)):
+        rec = members[sp["name"]]
+        k = rng.randrange(3, 9)
+        rot = gen.rotate(rec, len(rec) - k)           # the structure now starts k letters before the end
+        histories.append([(sp, rot, False), (sp, rot, True), (sp, rec, False)])
+        histories.append([(sp, rot, True), (sp, rot, False), (sp, rec, True)])
     run.extra["kit_class_pairs"] = len(pairs)
     base = {}
     traces = []
     for h in histories:
         evs = run_history(h)
-        for (cspec, seq), ev in zip(h, evs):
-            key = (cspec["name"], seq)
+        for step, ev in zip(h, evs):
+            cspec, seq = step[0], step[1]
+            circ = step[2] if len(step) > 2 else True
+            key = (cspec["name"], seq, circ)
             if key not in base:
-                base[key] = fresh_answer(cspec, seq)
+                base[key] = fresh_answer(cspec, seq, circ)
             ev["fresh"] = base[key]
         traces.append(evs)
-        run.distinct.add(tuple((c["name"], s) for c, s in h))
-    run.add_sample({"history": [(c["name"], s) for c, s in histories[0]], "events": traces[0]})
+        run.distinct.add(tuple((st[0]["name"], st[1], len(st) < 3 or st[2]) for st in h))
+    run.add_sample({"history": [(st[0]["name"], st[1]) for st in histories[0]], "events": traces[0]})
     recipes = [{"fn": "history", "steps": h} for h in histories]
     run.validate("kit-histories", "Trace_Session", traces, recipes, sigfn=lambda c, ev, tr: "%s|%s" % (c, "first" if ev is tr[0] else "later"),
                  describe=lambda c, ev, tr: "%s: after %s, class %s on %s answered valid=%s up=%s down=%s (fresh process: valid=%s); slot holds %s"
@@ -214,9 +226,9 @@ def replay_case(rec):
         loader.load()
         import moclo.kits.ytk, moclo.kits.cidar, moclo.kits.ecoflex, moclo.kits.moclo, moclo.kits.plant  # noqa
         _server[0] = forked.Server()
-        steps = [(c, s) for c, s in r["steps"]]
+        steps = [tuple(st) for st in r["steps"]]
         evs = run_history(steps)
-        for (cspec, seq), ev in zip(steps, evs):
-            ev["fresh"] = fresh_answer(cspec, seq)
+        for st, ev in zip(steps, evs):
+            ev["fresh"] = fresh_answer(st[0], st[1], st[2] if len(st) > 2 else True)
         return evs
     return generic_replay(rec, ex)
